@@ -482,6 +482,66 @@ func c39History(r *vkit.Run, caseNo int, rg *vkit.Rand) {
 			}
 			return
 		}
+		// burst: the hot cache store is emptied by a snapshot, then all clients write their first
+		// value of the SAME series field at the same moment (distinct timestamps): the
+		// check-then-insert window of the cache's per-key entry creation
+		for b := 0; b < 3 && !failed.Load(); b++ {
+			if mode == "snapshot" {
+				if err := s.Snapshot(); err != nil && !strings.Contains(err.Error(), "snapshot in progress") && !strings.Contains(err.Error(), "disabled") && !strings.Contains(err.Error(), "aborted") {
+					fail("unexpected_error", map[string]string{"op": "snapshot"}, err.Error())
+					break
+				}
+			} else {
+				// delete mode: empty the key through a full-range delete instead
+				sd := series[b%len(series)]
+				wd.Lock()
+				c0 := rec.now()
+				err := s.DeleteRange([]string{sd.Key}, sk.MinT, sk.MaxT)
+				c1 := rec.now()
+				wd.Unlock()
+				if err != nil {
+					fail("unexpected_error", map[string]string{"op": "delete"}, err.Error())
+					break
+				}
+				rec.add(0, c39In{Op: "delete", Key: sd.Key + "|" + fieldsOf(sd.Name)[0], Lo: sk.MinT, Hi: sk.MaxT}, c0, c39Out{}, c1)
+			}
+			sd := series[b%len(series)]
+			f := fieldsOf(sd.Name)[0]
+			var bw sync.WaitGroup
+			go0 := make(chan struct{})
+			for cl := 0; cl < nclients; cl++ {
+				bw.Add(1)
+				go func(cl int) {
+					defer bw.Done()
+					id := atomic.AddInt64(&idc, 1)
+					t := int64(1000*(round*3+b+1) + cl)
+					var v sk.Val
+					switch fieldKinds[sd.Name][f] {
+					case 'i':
+						v = sk.IntVal(id)
+					case 'u':
+						v = sk.UintVal(uint64(id))
+					default:
+						v = sk.FloatVal(float64(id))
+					}
+					pt := sk.Point(sd.Name, sd.Tags, map[string]sk.Val{f: v}, t)
+					<-go0
+					wd.RLock()
+					call := rec.now()
+					err := s.Write([]models.Point{pt})
+					ret := rec.now()
+					wd.RUnlock()
+					if err != nil {
+						fail("unexpected_error", map[string]string{"op": "write"}, err.Error())
+						return
+					}
+					rec.add(cl+1, c39In{Op: "write", Key: sd.Key + "|" + f, Pts: []c39P{{t, id}}}, call, c39Out{}, ret)
+				}(cl)
+			}
+			close(go0)
+			bw.Wait()
+			r.Event("burst_first_writes", int64(nclients))
+		}
 		// barrier: everything quiescent; full read of every key, then close + reopen
 		for _, sd := range series {
 			f := fieldsOf(sd.Name)[0]
